@@ -402,3 +402,72 @@ def r_C15i(root):
         why = "records of objects that were still being built (%s) stay in user_class._tx_obj_attrs: they hold `parent`, so the partial model stays reachable" % [x for x in left if x != 9] if any(x != 9 for x in left) else "the records of another load of the same metamodel (9) are dropped as well: the importing models lose their collected attributes and markers"
         for pr in ("C15", "C18", "C14"): out.append(Finding(pr, "C15.i", M, "TextXModelParser._release_user_obj_attrs", "records left: %s" % left, "a failed parser must release exactly the records of the objects it created; " + why, witness="user classes; a load that fails while a user object is half built / while an imported file is parsed"))
     return inst, out
+
+def r_C14inst(root):
+    """C14.c / C14.j  the attribute-method instrumentation of user classes as a typestate, decided by evaluation
+    (sa/pyeval.py with sample classes that distinguish own from inherited attributes; nothing of textX runs).
+    _replace_user_attr_methods / _restore_user_attr_methods of two parser objects that share the user classes
+    U (defines its own __setattr__) and V (a Python subclass of U without dunder methods of its own) are interpreted in
+    these orders; after each, the classes' own attributes are compared with the initial ones / with 'instrumented':
+        replace(p1) restore(p1)                                        -> as before              (C14.c)
+        replace(p1) replace(p2) restore(p2)                            -> still instrumented     (C14.j, nested load ends)
+        ... restore(p1)                                                -> as before
+        replace(p1) replace(p2) restore(p2) restore(p2) | restore(p1)  -> still instrumented | as before   (repeated restore)
+        replace(p1) restore(p3 that never replaced)       | restore(p1)-> still instrumented | as before"""
+    from sa import pyeval
+    out = []; inst = 0
+    t = load(root, M)
+    Q = "get_model_parser.TextXModelParser."
+    rep_fn = find(t, Q + "_replace_user_attr_methods"); res_fn = find(t, Q + "_restore_user_attr_methods")
+    fns = {k: v for k, v in helper_functions(root, M, Q + "_replace_user_attr_methods").items() if k.startswith("_") and not k.startswith("__")}
+    def fresh():
+        U = pyeval.ClassObj("U", {"__setattr__": "U's own __setattr__", "_tx_obj_attrs": {}, "_tx_fqn": "ns.U"})
+        V = pyeval.ClassObj("V", {"_tx_obj_attrs": {}, "_tx_fqn": "ns.V"}, bases=[U])
+        mm = {".kind": "metamodel", ".user_classes": {"U": U, "V": V}}
+        return U, V, mm
+    def snapshot(*cs): return [dict(c.own) for c in cs]
+    def call(fn, self_):
+        env = {"__functions__": fns, fn.args.args[0].arg: self_}
+        try: pyeval.run_block(fn.body, env); return None
+        except pyeval.Raised as r_: return "raises " + r_.cls
+        except pyeval.Unsupported as u_: raise AnalysisError("%s: outside the evaluated subset: %s" % (fn.name, u_))
+    def instrumented(c, init):
+        # the class's __setattr__ differs from its initial own value (a replacement is installed)
+        return c.own.get("__setattr__") is not None and c.own.get("__setattr__") != init.get("__setattr__")
+    def describe(cs, inits):
+        parts = []
+        for c, i0 in zip(cs, inits):
+            extra = sorted(set(c.own) - set(i0)); missing = sorted(set(i0) - set(c.own)); changed = sorted(k for k in set(c.own) & set(i0) if c.own[k] is not i0[k] and c.own[k] != i0[k])
+            if extra or missing or changed: parts.append("%s: %s" % (c.name, "; ".join(x for x in ("left over %s" % extra if extra else "", "lost %s" % missing if missing else "", "changed %s" % changed if changed else "") if x)))
+        return ", ".join(parts) or "as before"
+    W = "TextXModelParser._replace_user_attr_methods / _restore_user_attr_methods"
+    def rep(ok, clause, what, msg):
+        nonlocal inst
+        inst += 1; ob("C14", clause, M, W, what, ok)
+        if not ok: out.append(Finding("C14", clause, M, W, what, msg))
+    def parser(mm): return {".kind": "parser", ".metamodel": mm}
+    # 1. replace ; restore
+    U, V, mm = fresh(); i0 = snapshot(U, V); p1 = parser(mm)
+    e1 = call(rep_fn, p1); mid_ok = instrumented(U, i0[0]) and instrumented(V, i0[1])
+    rep(e1 is None and mid_ok, "C14.c", "replace installs the collecting attribute methods on every user class", "after _replace_user_attr_methods %s" % (e1 or "a user class (or a subclass of one that has no dunder methods of its own) is not instrumented"))
+    e2 = call(res_fn, p1)
+    rep(e2 is None and snapshot(U, V) == i0, "C14.c", "replace followed by restore leaves every user class as it was", "after replace and restore the user classes are not as before (%s%s): a dunder method or a _tx_* helper attribute stays on the class or the class's own method is lost" % (describe((U, V), i0), "; " + e2 if e2 else ""))
+    # 2. nested
+    U, V, mm = fresh(); i0 = snapshot(U, V); p1, p2 = parser(mm), parser(mm)
+    errs = [call(rep_fn, p1), call(rep_fn, p2), call(res_fn, p2)]
+    rep(not any(errs) and instrumented(U, i0[0]) and instrumented(V, i0[1]), "C14.j", "a nested load that ends leaves the classes instrumented for the outer load", "replace(p1) replace(p2) restore(p2): the user classes are %s while the outer load p1 is still collecting attributes%s: objects created afterwards lose their attributes / __init__ receives None" % (describe((U, V), i0), "".join("; " + e for e in errs if e)))
+    e3 = call(res_fn, p1)
+    rep(e3 is None and snapshot(U, V) == i0, "C14.j", "the outermost restore leaves every user class as it was", "after the outermost restore of a nested load the user classes are not as before (%s%s)" % (describe((U, V), i0), "; " + e3 if e3 else ""))
+    # 3. repeated restore of the inner parser
+    U, V, mm = fresh(); i0 = snapshot(U, V); p1, p2 = parser(mm), parser(mm)
+    errs = [call(rep_fn, p1), call(rep_fn, p2), call(res_fn, p2), call(res_fn, p2)]
+    rep(not any(errs) and instrumented(U, i0[0]) and instrumented(V, i0[1]), "C14.j", "a repeated restore of the same parser is a no-op", "replace(p1) replace(p2) restore(p2) restore(p2): the second restore of p2 counts again and the user classes are %s while p1 is still loading%s" % (describe((U, V), i0), "".join("; " + e for e in errs if e)))
+    e3 = call(res_fn, p1)
+    rep(e3 is None and snapshot(U, V) == i0, "C14.j", "... and the outer restore still leaves the classes as they were", "after restore(p1) the user classes are not as before (%s%s)" % (describe((U, V), i0), "; " + e3 if e3 else ""))
+    # 4. restore of a parser that never replaced
+    U, V, mm = fresh(); i0 = snapshot(U, V); p1, p3 = parser(mm), parser(mm)
+    errs = [call(rep_fn, p1), call(res_fn, p3)]
+    rep(not any(errs) and instrumented(U, i0[0]) and instrumented(V, i0[1]), "C14.j", "restore of a parser that did not replace is a no-op", "replace(p1) restore(p3), p3 never replaced (its load failed while parsing): the user classes are %s while p1 is still loading%s" % (describe((U, V), i0), "".join("; " + e for e in errs if e)))
+    e3 = call(res_fn, p1)
+    rep(e3 is None and snapshot(U, V) == i0, "C14.j", "... and the restore of the replacing parser leaves the classes as they were", "after restore(p1) the user classes are not as before (%s%s)" % (describe((U, V), i0), "; " + e3 if e3 else ""))
+    return inst, out
